@@ -11,7 +11,7 @@ EXPLANATION = (
     "Abstract path exploration of the header parsers, of the head reader and of new_request (helpers spliced in; independent of how the code is spelled): "
     "a HeaderField is only accepted on paths on which a whitespace test of the whole, untrimmed name came out negative, and a header line is split at its "
     "first colon with the untrimmed first part as the name; the text the head reader hands to the header parser, and the text it tests for the empty line, derive "
-    "from the received line through no function that removes leading whitespace; every Content-Length header found is checked to consist of ASCII digits and "
+    "from the received line through no function that removes leading whitespace; the name comparison functions compare the stored name whole (no trimming, splitting or slicing inside them); every Content-Length header found is checked to consist of ASCII digits and "
     "converted, a failing check or conversion makes new_request return an error (never `no Content-Length`), that error is answered 400 and closes the "
     "connection (traced into next()); framing headers are looked up by name case-insensitively, the first Content-Length decides, and a Transfer-Encoding "
     "header disables Content-Length.")
@@ -178,6 +178,22 @@ def run(ctx):
     bad, n_rows = FRM.table_mismatches(FM, {"reader", "length"}, merge={"buffer": "exactly-CL", "equal": "exactly-CL"})
     bad = [b for b in bad if b[0]["te"]]
     ctx.ob("C16.5", "%s|TE-disables-CL" % nr0.id, "with a Transfer-Encoding header the body is chunk-decoded and no length is declared, whatever Content-Length says", not bad, where, None if not bad else str(bad[:3]))
+    # the name comparison itself: the stored name is compared whole.  A comparison that first trims (or otherwise cuts) the stored name
+    # makes `Transfer-Encoding<ws>` designate the framing header as soon as any whitespace-like byte gets past the name test.
+    n_eq = 0
+    for fid in sorted(facts.fns):
+        if not re.search(r"(^|::)HeaderField::equiv$", fid) and not (fid.startswith("<common::HeaderField as ") and re.search(r"PartialEq.*>::eq$", fid)):
+            continue
+        ge = facts.fns[fid]
+        if not ge.rec.get("local"):
+            continue
+        fe = inline.inlined(facts, ge.id, stop=lambda d: False, extern_ok=Q.std_small)
+        ctx.touch(fe)
+        n_eq += 1
+        cuts = sorted({"%s at %s" % (short(call_name(t)), fe.loc(bb)) for bb, t in fe.calls() if ANY_TRIM.search(call_name(t)) or re.search(r"<impl str>::(split\w*|rsplit\w*|replace\w*|get|get_unchecked)$|SliceIndex<str>>::index$", call_name(t))})
+        ctx.ob("C16.5", "%s|name-compared-whole" % ge.id, "header names are compared whole (case aside): nothing is trimmed or cut off the stored name before the comparison", not cuts,
+               "%s:%d" % (ge.file, ge.line), None if not cuts else "the comparison works on a cut name: %s" % cuts[:3])
+    ctx.counts["C16.5 name comparison functions examined"] = n_eq
     # first occurrence decides
     bad_first = []
     n2 = 0
